@@ -680,6 +680,7 @@ func genC02(r *Rng, tier string, emit func(Case)) {
 		e("dec", "valid", itoa(ni), hs(caseVariant(r, s)))
 		e("dec", "validprefix", itoa(ni), hs(caseVariant(r, pre+":"+s)))
 		e("ccdec", "valid", hs(pre+":"+s))
+		e("cdec", "valid", hs(pre+":"+s)) // the public entry point (no hook needed)
 		// non-zero padding bits with valid checksum
 		e("dec", "padding", itoa(ni), hs(pre+":"+validCash(r, pre, v, h, byte(1+r.Intn(31)))))
 		// an extra all-zero symbol (over-long padding) with valid checksum
